@@ -119,11 +119,12 @@ let rec algo_of s : algo = match lst s with
   | [Atom "closeafter"; k] -> AClosePositionsAfterDates (natx k)
   | [Atom "rollafter"; k] -> ARollPositionsAfterDates (natx k)
   | [Atom "replay"; k] -> AReplayTransactions (natx k)
+  | [Atom "mock"; id; rs] -> AMock (natx id, List.map bool_of (lst rs))
   | Atom a :: _ -> failwith ("algo " ^ a)
   | _ -> failwith "algo"
 let mk_astate is_strategy algos : astate =
   { a_is_strategy = is_strategy; a_stack = algos; a_temp = empty_temp (Obj.magic 0);
-    a_closed = []; a_rolled = []; a_has_closed = false; a_has_rolled = false; a_trace = [] }
+    a_closed = []; a_rolled = []; a_has_closed = false; a_has_rolled = false; a_log = []; a_trace = [] }
 let adata_of s : adata = match lst s with
   | [Atom "frame"; idx; cols] -> DFrame (List.map zx (lst idx), frame_of cols)
   | [Atom "dates"; l] -> DDates (List.map (fun x -> match lst x with [k; d] -> (natx k, zx d) | _ -> failwith "dates") (lst l))
@@ -288,6 +289,18 @@ let run_case (c : sexp) =
      | Err e -> Printf.printf "BUILD ok\nOP 0 err %s\n" (err_name e)
      | Ok tr -> Printf.printf "BUILD ok\nOP 0 ok nan\n"; dump_tree tr);
     Printf.printf "END\n"
+  | L [Atom "sched"; Atom name; a; dates; calls] ->
+    let res = f_sched_run (List.map zx (lst dates)) (algo_of a)
+        (List.map (fun c -> match atom c with "none" -> None | x -> Some (nat_of_int (int_of_string x))) (lst calls)) in
+    Printf.printf "SCHED %s %s\n" name
+      (String.concat " " (List.map (function Ok b -> pb b | Err e -> err_name e) res))
+  | L [Atom "stackrun"; Atom name; n; algos] ->
+    (match f_stack_runs (natx n) (List.map algo_of (lst algos)) with
+     | Ok (log, rs) ->
+       Printf.printf "STACK %s log %s res %s\n" name
+         (String.concat "," (List.map (fun k -> string_of_int (int_of_nat k)) log))
+         (String.concat "," (List.map pb rs))
+     | Err e -> Printf.printf "STACK %s err %s\n" name (err_name e))
   | L (Atom "cal" :: tss) ->
     List.iter (fun t -> Printf.printf "%s\n" (String.concat " " (List.map (fun x -> string_of_int (int_of_z x)) (f_cal (zx t))))) tss
   | L [Atom "suboff"; l] ->
